@@ -1,4 +1,5 @@
 import TensorModel.Generated.Core
+import TensorModel.Eng
 /-!
   The regenerated Lean definitions of the hand-written Go functions (`Generated/Core.lean`, rewritten by
   `tools/gol` from /repo on every run) compute what the hand-written model functions compute.
@@ -395,4 +396,164 @@ theorem Shape_CalcStridesColMajor_eq (s : List Int) (hpos : ∀ d ∈ s, 0 ≤ d
       have := ColMajor_loop s hpos s.length 0 1 (List.replicate s.length 0) (by simp) (by simp)
       simp only [Int.cast_ofNat_Int, List.drop_zero, List.take_zero, List.nil_append] at this
       simp [this]
+end TM.Gen
+
+namespace TM.Gen
+open TM
+set_option linter.unusedSimpArgs false
+
+/-! ### `Shape.IsVectorLike` -/
+theorem IsVectorLike_loop (s cs : List Int) (n : Int) :
+    Shape_IsVectorLike_loop1 s cs n = .ok (Ctl.next (n + ((cs.filter (· != 1)).length : Int))) := by
+  induction cs generalizing n with
+  | nil => simp [Shape_IsVectorLike_loop1, pure, Except.pure]
+  | cons c cs ih =>
+    rw [Shape_IsVectorLike_loop1]
+    by_cases h : c = 1
+    · subst h; simp [ih]
+    · have h' : (c != 1) = true := by simpa using h
+      simp [h, h', ih, List.filter_cons]; omega
+
+theorem Shape_IsVectorLike_eq (s : List Int) : Shape_IsVectorLike s = .ok (isVectorLike s) := by
+  unfold Shape_IsVectorLike isVectorLike
+  simp only [IsVectorLike_loop, bind, Except.bind, pure, Except.pure]
+  congr 1
+  generalize (s.filter (· != 1)).length = k
+  cases k with
+  | zero => simp
+  | succ k => cases k <;> simp <;> omega
+
+/-! ### `Shape.Eq` -/
+theorem Shape_Eq_loop (other s : List Int) : ∀ (cs : List Int) (k : Nat), k + cs.length ≤ other.length →
+    Shape_Eq_loop1 other s (enumFrom k cs) =
+      .ok (if (other.drop k).take cs.length == cs then Ctl.next () else Ctl.ret false) := by
+  intro cs
+  induction cs with
+  | nil => intro k _; simp [enumFrom, Shape_Eq_loop1, pure, Except.pure]
+  | cons c cs ih =>
+    intro k hk
+    have hlt : k < other.length := by simp at hk; omega
+    rw [enumFrom, Shape_Eq_loop1]
+    have hd : other.drop k = other[k] :: other.drop (k + 1) := List.drop_eq_getElem_cons hlt
+    simp only [gidx_lt other k hlt, bind, Except.bind, hd, List.length_cons, List.take_succ_cons]
+    by_cases h1 : other[k] = c
+    · have := ih (k + 1) (by simp at hk; omega)
+      simp [h1, this]
+    · have h1' : (other[k] != c) = true := by simpa using h1
+      simp [h1, h1', pure, Except.pure]
+
+end TM.Gen
+namespace TM.Gen
+open TM
+set_option linter.unusedSimpArgs false
+set_option maxRecDepth 2000
+
+theorem Shape_Eq_tail (s other : List Int) (hlen : s.length = other.length) :
+    (do
+      let r ← Shape_Eq_loop1 other s (enum s)
+      match r with
+      | Ctl.ret r__ => pure r__
+      | Ctl.next _ => pure true : GoM Bool) = .ok (s == other) := by
+  have := Shape_Eq_loop other s s 0 (by omega)
+  simp only [enum, this, bind, Except.bind, List.drop_zero, hlen, List.take_length]
+  by_cases h : other = s
+  · subst h; simp [pure, Except.pure]
+  · have h2 : (other == s) = false := by simpa using h
+    have h3 : (s == other) = false := by simpa using (fun e : s = other => h e.symm)
+    simp [h2, h3, pure, Except.pure]
+
+theorem len_eq_two {l : List Int} : (len l == 2) = true ↔ ∃ a b, l = [a, b] := by
+  constructor
+  · intro h
+    match l with
+    | [a, b] => exact ⟨a, b, rfl⟩
+    | [] => simp [len] at h
+    | [_] => simp [len] at h
+    | _ :: _ :: _ :: r => simp [len] at h; omega
+  · rintro ⟨a, b, rfl⟩; rfl
+
+theorem len_eq_one {l : List Int} : (len l == 1) = true ↔ ∃ a, l = [a] := by
+  constructor
+  · intro h
+    match l with
+    | [a] => exact ⟨a, rfl⟩
+    | [] => simp [len] at h
+    | _ :: _ :: r => simp [len] at h; omega
+  · rintro ⟨a, rfl⟩; rfl
+
+theorem Shape_Eq_eq (s other : List Int) : Shape_Eq s other = .ok (shapeEq s other) := by
+  unfold Shape_Eq shapeEq
+  simp only [Shape_IsScalar, Shape_IsVector_eq, Shape_IsColVec_eq, Shape_IsRowVec_eq, bind, Except.bind, pure, Except.pure]
+  by_cases hA : (len s == 0 && len other == 0) = true
+  · have h1 : s = [] := by
+      cases s with
+      | nil => rfl
+      | cons x xs => have := len_nonneg xs; simp at hA; omega
+    have h2 : other = [] := by
+      cases other with
+      | nil => rfl
+      | cons x xs => have := len_nonneg xs; simp at hA; omega
+    subst h1 h2; rfl
+  · have hA' : (isScalar s && isScalar other) = false := by
+      cases s <;> cases other <;> simp_all [isScalar, len]
+    by_cases hC1 : (len s == 2 && len other == 1) = true
+    · obtain ⟨⟨a, b, rfl⟩, ⟨c, rfl⟩⟩ : (∃ a b, s = [a, b]) ∧ (∃ c, other = [c]) := by
+        simp only [Bool.and_eq_true] at hC1; exact ⟨len_eq_two.mp hC1.1, len_eq_one.mp hC1.2⟩
+      simp [isScalar, isVector, isColVec, isRowVec, len]
+      by_cases h1 : b = 1 <;> by_cases h2 : a = 1 <;> by_cases h3 : 1 < a <;> by_cases h4 : 1 < b <;>
+        by_cases h5 : a = c <;> by_cases h6 : b = c <;> simp_all
+      all_goals first | omega | (split <;> simp_all)
+    · by_cases hC2 : (len s == 1 && len other == 2) = true
+      · obtain ⟨⟨a, rfl⟩, ⟨b, c, rfl⟩⟩ : (∃ a, s = [a]) ∧ (∃ b c, other = [b, c]) := by
+          simp only [Bool.and_eq_true] at hC2; exact ⟨len_eq_one.mp hC2.1, len_eq_two.mp hC2.2⟩
+        simp [isScalar, isVector, isColVec, isRowVec, len]
+        by_cases h1 : c = 1 <;> by_cases h2 : b = 1 <;> by_cases h3 : 1 < b <;> by_cases h4 : 1 < c <;>
+          by_cases h5 : b = a <;> by_cases h6 : c = a <;> simp_all
+        all_goals first | omega | (split <;> simp_all)
+      · have hC1' : (len s == 2 && len other == 1) = false := by simpa using hC1
+        have hC2' : (len s == 1 && len other == 2) = false := by simpa using hC2
+        have hm1 : (isVector s && isVector other && s.length == 2 && other.length == 1) = false := by
+          cases h : (isVector s && isVector other)
+          · simp
+          · simp only [Bool.true_and]
+            have : ((s.length == 2) && (other.length == 1)) = (len s == 2 && len other == 1) := by
+              have e1 : (len s == 2) = (s.length == 2) := by
+                cases h : s.length == 2 <;> simp_all [len] <;> omega
+              have e2 : (len other == 1) = (other.length == 1) := by
+                cases h : other.length == 1 <;> simp_all [len] <;> omega
+              rw [e1, e2]
+            simpa [Bool.and_assoc, this] using hC1'
+        have hm2 : (isVector s && isVector other && s.length == 1 && other.length == 2) = false := by
+          cases h : (isVector s && isVector other)
+          · simp
+          · simp only [Bool.true_and]
+            have : ((s.length == 1) && (other.length == 2)) = (len s == 1 && len other == 2) := by
+              have e1 : (len s == 1) = (s.length == 1) := by
+                cases h : s.length == 1 <;> simp_all [len] <;> omega
+              have e2 : (len other == 2) = (other.length == 2) := by
+                cases h : other.length == 2 <;> simp_all [len] <;> omega
+              rw [e1, e2]
+            simpa [Bool.and_assoc, this] using hC2'
+        have hA2 : (len s == 0 && len other == 0) = false := by simpa using hA
+        simp only [hA', hA2, hm1, hm2, hC1', hC2', Bool.false_eq_true, if_false]
+        by_cases hl : s.length = other.length
+        · have h0 : (len s != len other) = false := by simp [len, hl]
+          have hloop := Shape_Eq_loop other s s 0 (by omega)
+          simp only [List.drop_zero, hl, List.take_length] at hloop
+          simp only [enum, hloop, h0, Bool.false_eq_true, if_false]
+          by_cases he : other = s
+          · subst he; simp
+          · have h2 : (other == s) = false := by simpa using he
+            have h3 : (s == other) = false := by simpa using (fun e : s = other => he e.symm)
+            simp [h2, h3]
+            have hlen : len s = len other := by simp [len, hl]
+            have : ¬ (len s = 0) := by
+              intro h; rw [h] at hlen; simp [h, ← hlen] at hA2
+            simp [this]
+        · have h0 : (len s != len other) = true := by simp [len]; omega
+          have h1 : (s == other) = false := by
+            simp; intro e; exact hl (by rw [e])
+          simp only [h0, h1, if_true]
+          repeat' split
+          all_goals simp_all
 end TM.Gen
